@@ -221,6 +221,16 @@ def with_idle_jobs(spec, rng, n=3):
     return sp, {"op": "setlink", "kind": "servers", "name": svn, "attr": "storage", "target": stn}
 
 
+def zero_time_op(spec, rng):
+    """time given to a step of a journey of the system in which no time is spent at all (None if there is none)"""
+    for p in spec["system"]["usage_patterns"]:
+        steps_ = spec["journeys"][spec["patterns"][p]["usage_journey"]]["uj_steps"]
+        if steps_ and all(spec["steps"][s_]["user_time_spent"]["m"] == 0 for s_ in steps_):
+            return {"op": "setq", "kind": "steps", "name": rng.choice(sorted(set(steps_))), "param": "user_time_spent",
+                    "value": {"m": rng.choice([0.3, 12.5]), "u": rng.choice(["min", "hour"])}}
+    return None
+
+
 def corner_ops(rng, spec, guarded):
     """edits aimed at the legal corners the generator plants (specgen corner_topologies): giving time to a
     journey in which no time is spent, changing one of several equal-valued inputs, placing an idle job"""
@@ -691,6 +701,10 @@ def live_accounting_shard(args):
                 op = growth_op(live.spec, rng) or op
             if step == 0 and i % 4 == 2 and move_storage is not None:
                 op = move_storage      # a server that also hosts jobs not placed in any step is moved to another storage
+            if step == 0 and seed % 2 == 1:
+                # (every other shard) a journey in which no time is spent is given time first: the corner edits are many
+                # by now, and drawing one at random had made this one rare
+                op = zero_time_op(live.spec, rng) or op
             if op is None:
                 op = gen_op(rng, live.spec, True)
             if op is None or not safe_after(live, op):
